@@ -792,6 +792,11 @@ def spec_stats(spec: Dict[str, Any], res: Result) -> None:
             res.count("variables:all-UNSET")
 
 
+def flooded(res: Result) -> bool:
+    """enough evidence either way: many failures outside every finding region, or many mismatches"""
+    return sum(1 for f in res.failures if f.trigger is None) > 60 or len(res.mismatches) > 400
+
+
 def judge(ctx: Ctx, st: Optional[LeanStatus], specs: List[Dict[str, Any]], res: Result, rig: Rig) -> None:
     use_model = st is not None and st.driver_ok
     builts0 = [Built(s) for s in specs]
@@ -803,6 +808,8 @@ def judge(ctx: Ctx, st: Optional[LeanStatus], specs: List[Dict[str, Any]], res: 
                 lines.append(model_line(b, kind, tracer))
         model_out = common.run_driver(ctx.prop, lines)
     for n, spec in enumerate(specs):
+        if flooded(res):
+            return  # the verdict is settled; do not keep driving code that is visibly broken
         b0 = builts0[n]
         shape = Shape(b0)
         trig = py_triggers(b0, shape)
@@ -966,6 +973,8 @@ def _run_calls(kind: str, tracer: Optional[str], builts: List[Built], concurrent
 def concurrency(ctx: Ctx, res: Result, rounds: int, width: int) -> None:
     rng = ctx.sub_rng("concurrency")
     for rnd in range(rounds):
+        if flooded(res):
+            return
         specs = []
         for n in range(width):
             s = gen_call(rng, 1000 * rnd + n)
